@@ -35,6 +35,11 @@ scales its single operand in place) was missed before and is caught now; two mor
 seed 0 here and in C20, both missed by the generators before:
   10 setops.mass_weightedIntersection scales a single operand in place (reached only by a one-id search_phrase)
   11 baseindex.search_glob scales the map in place when the glob matches a single word
+K1 / B overridden on a subclass / sub-subclass / instance / instance of a subclass (30% of the Okapi corpora, always
+on the pure-Python loop: impl `python` or `textpy` = TextIndex over it; cfg k1 / cfg b go to the model as bit
+patterns, Lean `Score.Bm25`): seeded C20_E's class; mutations 12 (`B = OkapiIndex.B` in the Python loop) and 13
+(`tfmax = 1.0 + type(self).K1` in query_weight) give VIOLATION on quick seed 0.  The compiled loop ignores the
+attributes (okascore.c #defines) - see C20's docstring; that combination is not generated.
 """
 import importlib.util
 import math
@@ -51,7 +56,8 @@ AUDIT_IMPORTS = ["HypatiaProofs.Properties.C08"]
 THEOREMS = ["Hyp.C08." + t for t in (
     "c08_table_of_history", "c08_total_length_counter", "c08_search", "c08_search_no_wids", "c08_glob",
     "c08_phrase", "c08_phrase_is_sublist", "c08_query_weight", "c08_history_independent",
-    "c08_okapi_formula", "c08_cosine_formula", "c08_score_loop")]
+    "c08_okapi_formula", "c08_okapi_formula_default", "c08_cosine_formula", "c08_score_loop",
+    "c08_score_loop_default")]
 CASES = {"quick": 1200, "thorough": 40000}
 BUDGET_S = {"quick": 45, "thorough": 780}
 BATCH = 40
@@ -651,6 +657,10 @@ def impl_run(hyp, case):
             elif op == "reindex":
                 text = " ".join(map(str, c[2:]))
                 if ti is not None:
+                    if c[1] not in inner._docweight:
+                        # TextIndex.reindex_doc IS index_doc: never generated for an unknown id; a shrinking step
+                        # that drops the earlier index command must not turn the case into a different one
+                        raise core.Infra("reindex of an unknown docid through TextIndex is not a generated case")
                     ti.reindex_doc(c[1], Doc(text))
                 else:
                     inner.reindex_doc(c[1], text)
@@ -869,7 +879,13 @@ RULE = ("a corpus = a history of 2-20 index_doc (new and existing ids), direct r
         "single match / apply of an atom, glob or word+stop-word phrase) on the most frequent word is issued, "
         "followed by 1-2 other reads, then again (measured quick seed 0, of 1200 corpora: same one-word read repeated "
         "on an unchanged corpus 807 on a dict posting + 226 on a stored IFBTree posting, of these 78 cosine; a scored "
-        "query on a word beyond the cut-off 326, beyond 10 documents 52). A corpus is non-trivial if a scored "
+        "query on a word beyond the cut-off 326, beyond 10 documents 52). 30% of the Okapi corpora run on an index whose K1 "
+        "and / or B (the documented BM25 free parameters; K1 from {0.5, 2.0, 3.75, 1.2}, B from {0, 0.25, 0.5, 0.75, "
+        "1}) is overridden on a subclass, a sub-subclass, the instance, or the instance of a subclass saying "
+        "something else - always with the pure-Python loop (impl python, or textpy = TextIndex over it), cfg k1 / "
+        "cfg b to the model (measured quick seed 0: 235 of 711 Okapi corpora, subclass 57 / sub-subclass 53 / "
+        "instance 59 / instance-of-subclass 66; 232 of them scored a document with tf > 1 and len != mean, 99 a "
+        "positive query_weight). A corpus is non-trivial if a scored "
         "document has tf > 1 for a query word and len != mean")
 LEVEL_TEXT = ("Lean 4 theorems over the reals: for every document table and every list of query word ids the "
               "modelled search / search_glob / search_phrase of OkapiIndex and CosineIndex (per-term maps, "
